@@ -103,6 +103,35 @@ Proof.
   rewrite Et in Hin. unfold inner_inv in Hin. apply Hin. reflexivity.
 Qed.
 
+Definition expand_loop (huff cl ex nc lh : arr) : arr * arr * arr * arr * N * bool :=
+  forN 0 29 (fun lenSym (st : arr * arr * arr * arr * N * bool) =>
+    let '(huff, cl, ex, nc, expandsIdx, pan) := st in
+    let extraCount := aget rfc_len_extra lenSym in
+    let lenSize := N.shiftl 1 extraCount in
+    let codeLen := hc_len (aget lh lenSym) in
+    if codeLen =? 0 then (huff, cl, ex, nc, expandsIdx + lenSize, pan)
+    else
+      let code := bitReverse2 (u16 (aget nc codeLen)) codeLen in
+      let expandLen := codeLen + extraCount in
+      let nc := aset nc codeLen (u32 (aget nc codeLen + 1)) in
+      let ins := aget ex expandLen in
+      let ex := aset ex expandLen (u16 (ins + lenSize)) in
+      let '(huff, cl, pan) :=
+        forN 0 lenSize (fun extra (a : arr * arr * bool) =>
+          let '(huff, cl, pan) := a in
+          if (516 <=? ins + extra) || (514 <=? expandsIdx + extra) then (huff, cl, true)
+          else (aset huff (expandsIdx + extra)
+                     (hc_set (N.lor code (shl32 extra codeLen)) expandLen),
+                aset cl (ins + extra) (expandsIdx + extra), pan))
+          (huff, cl, pan) in
+      (huff, cl, ex, nc, expandsIdx + lenSize, pan))
+    (huff, cl, ex, nc, litSymbolsSize, false).
+
+Lemma expandLenCodes_eq : forall huff cl ex nc lh,
+  expandLenCodes huff cl ex nc lh =
+  let '(huff, cl, ex, nc, _, pan) := expand_loop huff cl ex nc lh in (huff, cl, ex, nc, pan).
+Proof. reflexivity. Qed.
+
 Definition expand_inv (ll : lens) (n : N) (st : arr * arr * arr * arr * N * bool) : Prop :=
   let '(hf, cl, ex, nc, xi, pan) := st in
   xi = xbase (N.to_nat n) /\
@@ -120,31 +149,9 @@ Lemma expand_loop_spec : forall ll huff cl ex nc lh,
   (forall L, L <= 21 -> aget ex L = Soff ll L + bsum (litem ll L) 257) ->
   (forall b, (1 <= b <= 15)%nat ->
      aget nc (N.of_nat b) = first_code ll b + HuffmanProofs.occ (firstn 257 ll) b) ->
-  expand_inv ll 29
-    (forN 0 29 (fun lenSym (st : arr * arr * arr * arr * N * bool) =>
-      let '(huff, cl, ex, nc, expandsIdx, pan) := st in
-      let extraCount := aget rfc_len_extra lenSym in
-      let lenSize := N.shiftl 1 extraCount in
-      let codeLen := hc_len (aget lh lenSym) in
-      if codeLen =? 0 then (huff, cl, ex, nc, expandsIdx + lenSize, pan)
-      else
-        let code := bitReverse2 (u16 (aget nc codeLen)) codeLen in
-        let expandLen := codeLen + extraCount in
-        let nc := aset nc codeLen (u32 (aget nc codeLen + 1)) in
-        let ins := aget ex expandLen in
-        let ex := aset ex expandLen (u16 (ins + lenSize)) in
-        let '(huff, cl, pan) :=
-          forN 0 lenSize (fun extra (a : arr * arr * bool) =>
-            let '(huff, cl, pan) := a in
-            if (516 <=? ins + extra) || (514 <=? expandsIdx + extra) then (huff, cl, true)
-            else (aset huff (expandsIdx + extra)
-                       (hc_set (N.lor code (shl32 extra codeLen)) expandLen),
-                  aset cl (ins + extra) (expandsIdx + extra), pan))
-            (huff, cl, pan) in
-        (huff, cl, ex, nc, expandsIdx + lenSize, pan))
-      (huff, cl, ex, nc, litSymbolsSize, false)).
+  expand_inv ll 29 (expand_loop huff cl ex nc lh).
 Proof.
-  intros ll huff cl ex nc lh HF Hov Hlh Hpl Hex Hnc.
+  intros ll huff cl ex nc lh HF Hov Hlh Hpl Hex Hnc. unfold expand_loop.
   apply (forN_ind _ (expand_inv ll)).
   - lia.
   - unfold expand_inv, litSymbolsSize. change (N.to_nat 0) with O.
@@ -248,3 +255,136 @@ Proof.
            rewrite Hcw. rewrite u32_small by lia. unfold cw. rewrite <- Hldef. lia.
         -- destruct (Nat.eqb_spec l b); [lia|]. rewrite (Hnc' b Hb). lia.
 Qed.
+
+(* ---------------------------------------------------------------- assembly *)
+Lemma sae_lc_get : forall ll ex nc lc0 L, ps_post ll ex nc -> L <= 22 ->
+  aget (forN 0 maxLitLenCount (fun i t => aset t i (aget ex i)) lc0) L = Soff ll L.
+Proof.
+  intros ll ex nc lc0 L Hps HL.
+  rewrite (forN_aset_get (fun i => aget ex i)) by (unfold maxLitLenCount; lia).
+  unfold maxLitLenCount. replace ((0 <=? L) && (L <? 23)) with true by lia.
+  apply (proj1 Hps). exact HL.
+Qed.
+
+Lemma sae_lh_get : forall ll h cnt lh0 k, lens_in ll 0 286 h cnt -> k < 29 ->
+  aget (forN 0 29 (fun i t => aset t i (aget h (litSymbolsSize + i))) lh0) k =
+  hc_set 0 (N.of_nat (nth (257 + N.to_nat k) ll 0%nat)).
+Proof.
+  intros ll h cnt lh0 k (_ & _ & Hh & _) Hk.
+  rewrite (forN_aset_get (fun i => aget h (litSymbolsSize + i))) by lia.
+  replace ((0 <=? k) && (k <? 29)) with true by lia. unfold litSymbolsSize.
+  replace (257 + k) with (0 + (257 + k)) by lia. rewrite Hh by lia.
+  f_equal. f_equal. f_equal. lia.
+Qed.
+
+Lemma sae_huff_get : forall ll h cnt i, lens_in ll 0 286 h cnt -> i < 257 ->
+  aget (forN litSymbolsSize litLenElems (fun i t => aset t i 0) h) i =
+  hc_set 0 (N.of_nat (nth (N.to_nat i) ll 0%nat)).
+Proof.
+  intros ll h cnt i (_ & _ & Hh & _) Hi.
+  rewrite (forN_aset_get (fun _ => 0)) by (unfold litSymbolsSize, litLenElems; lia).
+  unfold litSymbolsSize, litLenElems. replace ((257 <=? i) && (i <? 514)) with false by lia.
+  replace i with (0 + i) at 1 by lia. apply Hh. lia.
+Qed.
+
+(* the two loops together *)
+Lemma sort_loops : forall ll huff1 cl ex nc lh hf2 cl2 ex3 nc2 hf3 cl3 ex4 nc3,
+  Forall (fun x => (x <= 15)%nat) ll -> oversubscribed 15 ll = false ->
+  (forall i, i < 257 -> aget huff1 i = hc_set 0 (N.of_nat (nth (N.to_nat i) ll 0%nat))) ->
+  (forall k, k < 29 -> aget lh k = hc_set 0 (N.of_nat (nth (257 + N.to_nat k) ll 0%nat))) ->
+  ps_post ll ex nc ->
+  calcCodeForLit huff1 cl ex nc = (hf2, cl2, ex3, nc2, false) ->
+  expandLenCodes hf2 cl2 ex3 nc2 lh = (hf3, cl3, ex4, nc3, false) ->
+  placed ll 514 (Ecount ll) hf3 cl3.
+Proof.
+  intros ll huff1 cl ex nc lh hf2 cl2 ex3 nc2 hf3 cl3 ex4 nc3 HF Hov Hh1 Hlh Hps Ec Ee.
+  pose proof (calc_spec ll huff1 cl ex nc HF Hov Hh1 Hps) as Hc.
+  rewrite Ec in Hc. unfold calc_inv in Hc. destruct (Hc eq_refl) as (Hpl & Hex3 & Hnc2 & _). clear Hc.
+  assert (E257 : N.to_nat 257 = 257%nat) by reflexivity.
+  rewrite E257 in Hpl, Hnc2.
+  assert (Hex3' : forall L, L <= 21 -> aget ex3 L = Soff ll L + bsum (litem ll L) 257)
+    by (intros L HL; rewrite <- E257; apply Hex3, HL).
+  pose proof (expand_loop_spec ll hf2 cl2 ex3 nc2 lh HF Hov Hlh Hpl Hex3' Hnc2) as He.
+  rewrite expandLenCodes_eq in Ee.
+  destruct (expand_loop hf2 cl2 ex3 nc2 lh) as [[[[[hf3' cl3'] ex4'] nc3'] xi] pan2].
+  injection Ee as -> -> _ _ ->.
+  unfold expand_inv in He. destruct He as [Hxi He].
+  destruct (He eq_refl) as (Hpl3 & _). clear He.
+  assert (E29 : N.to_nat 29 = 29%nat) by reflexivity.
+  rewrite E29 in Hxi, Hpl3. rewrite xbase_29 in Hxi. subst xi.
+  apply (placed_weaken ll 514 514 _ _ _ _ Hpl3); [lia| |intros; lia].
+  intros L _. symmetry. apply fillB_29.
+Qed.
+
+Lemma xsorted_of_placed : forall ll xc hf cl lc d1,
+  Forall (fun x => (x <= 15)%nat) ll -> xc_char ll xc ->
+  placed ll 514 (Ecount ll) hf cl ->
+  (forall L, L <= 22 -> aget lc L = Soff ll L) ->
+  litAndDistHuff d1 = hf -> codeList d1 = cl -> litCount d1 = lc ->
+  xsorted xc d1.
+Proof.
+  intros ll xc hf cl3 lc' d1 HF Hxc (P1 & P2 & P3) Hlc' Hd1 Hd2 Hd3.
+  assert (Hslot : forall L k, L < 22 -> Soff ll L <= k < Soff ll L + Ecount ll L ->
+                    inslot ll (Ecount ll) L k).
+  { intros L k HL Hk. split; [lia|exact Hk]. }
+  unfold xsorted. rewrite Hd1, Hd2, Hd3. cbv zeta.
+  split; [rewrite Hlc' by lia; apply Soff_0|].
+  split; [intros L HL; rewrite !Hlc' by lia; apply Soff_mono; lia|].
+  split; [rewrite Hlc' by lia; apply Soff_22|].
+  split; [|split].
+  - intros L k HL Hk. rewrite !Hlc' in Hk by lia. rewrite Soff_succ in Hk.
+    destruct (P1 L k (Hslot L k HL Hk)) as (Hlt & val & Hx & Hv).
+    split; [exact Hlt|]. exists val. split; [exact Hv|].
+    apply Hxc. exists (aget cl3 k). split; [reflexivity|exact Hx].
+  - intros s len val Hin. apply Hxc in Hin. destruct Hin as (idx & Hs & Hx).
+    destruct (xin_idx_bounds ll idx len val HF Hx) as [Hidx Hl20].
+    destruct (P2 idx len val Hidx Hx) as (k & [HL Hk] & Hk1 & Hk2).
+    exists k. rewrite !Hlc' by lia. rewrite Soff_succ.
+    split; [exact Hk|]. rewrite Hk1. split; [symmetry; exact Hs|exact Hk2].
+  - intros k k' Hk Hk' Heq. rewrite Hlc' in Hk, Hk' by lia.
+    assert (E22 : 22 = N.of_nat 22) by reflexivity.
+    rewrite E22 in Hk, Hk'.
+    destruct (class_of ll k 22 Hk) as (L & HL & HkL).
+    destruct (class_of ll k' 22 Hk') as (L' & HL' & HkL').
+    apply (P3 L k L' k'); [apply Hslot; [lia|exact HkL]|apply Hslot; [lia|exact HkL']|exact Heq].
+Qed.
+
+(* sae_tail unfolded by an equation (unfolding it by conversion in a hypothesis makes the
+   kernel evaluate the loops at Qed) *)
+Lemma sae_tail_unf : forall d ex nc, sae_tail d ex nc =
+  let lc := forN 0 maxLitLenCount (fun i t => aset t i (aget ex i)) (litCount d) in
+  let lenHuff := forN 0 29 (fun i t => aset t i (aget (litAndDistHuff d) (litSymbolsSize + i)))
+                      (lenHuffCodes d) in
+  let huff := forN litSymbolsSize litLenElems (fun i t => aset t i 0) (litAndDistHuff d) in
+  let '(huff, cl, ex, nc, pan1) := calcCodeForLit huff (codeList d) ex nc in
+  let '(huff, cl, ex, nc, pan2) := expandLenCodes huff cl ex nc lenHuff in
+  (mkDyn huff (clcShort d) (clcLong d) cl lc (distCount d) ex nc lenHuff,
+   if pan1 || pan2 then EPanic else ENone).
+Proof. reflexivity. Qed.
+
+Theorem sae_tail_sorted : forall ll xc d ex nc d1,
+  lens_in ll 0 286 (litAndDistHuff d) (litCount d) ->
+  ps_post ll ex nc -> oversubscribed 15 ll = false -> xc_char ll xc ->
+  sae_tail d ex nc = (d1, ENone) ->
+  xsorted xc d1.
+Proof.
+  intros ll xc d ex nc d1 Hin Hps Hov Hxc H.
+  pose proof (fun L => sae_lc_get ll ex nc (litCount d) L Hps) as Hlc'.
+  pose proof (fun k => sae_lh_get ll _ _ (lenHuffCodes d) k Hin) as Hlh.
+  pose proof (fun i => sae_huff_get ll _ _ i Hin) as Hh1.
+  destruct Hin as (Hlen & HF & Hh & _).
+  rewrite sae_tail_unf in H. cbv zeta in H.
+  set (lc' := forN 0 maxLitLenCount _ (litCount d)) in *.
+  set (lh := forN 0 29 _ (lenHuffCodes d)) in *.
+  set (huff1 := forN litSymbolsSize litLenElems _ (litAndDistHuff d)) in *.
+  clearbody lc' lh huff1.
+  destruct (calcCodeForLit huff1 (codeList d) ex nc) as [[[[hf2 cl2] ex3] nc2] pan1] eqn:Ec.
+  destruct (expandLenCodes hf2 cl2 ex3 nc2 lh) as [[[[hf3 cl3] ex4] nc3] pan2] eqn:Ee.
+  injection H as Hd Hp.
+  destruct pan1; [discriminate Hp|]. destruct pan2; [discriminate Hp|]. clear Hp.
+  pose proof (sort_loops ll huff1 (codeList d) ex nc lh hf2 cl2 ex3 nc2 hf3 cl3 ex4 nc3
+              HF Hov Hh1 Hlh Hps Ec Ee) as Hpl.
+  apply (xsorted_of_placed ll xc hf3 cl3 lc' d1 HF Hxc Hpl Hlc'); subst d1; reflexivity.
+Qed.
+
+Print Assumptions sae_tail_sorted.
